@@ -156,3 +156,44 @@ def expert_classes(case, v):
     labs.append("kappa<1e3" if k < 1e3 else "kappa<1e8" if k < 1e8 else "kappa>=1e8")
     if f.get("info", 0) == s["n"] + 1: labs.append("info=n+1")
     return labs
+
+
+# ---------------------------------------------------------------------------------------------- exhaustive scheduler model (C03/C04)
+def _model_job(args):
+    import subprocess, json, os
+    (n, w, relax, P, variant) = args
+    exe = os.path.join(os.path.dirname(os.path.dirname(os.path.dirname(os.path.abspath(__file__)))), ".build", variant, "schedmodel")
+    try:
+        r = subprocess.run([exe, str(n), str(w), str(relax), str(P), "12000017"], capture_output=True, text=True, timeout=7200)
+        line = [l for l in r.stdout.splitlines() if l.startswith("{")]
+        return json.loads(line[-1]) if line else {"n": n, "w": w, "relax": relax, "P": P, "violation": "model crashed: rc=%d %s" % (r.returncode, r.stderr[-300:])}
+    except Exception as e:
+        return {"n": n, "w": w, "relax": relax, "P": P, "violation": "model error: %s" % e}
+
+
+def scheduler_model_phase(pid, tier, seed):
+    """all interleavings of the real scheduler code on every postordered forest: quick n<=5 (P=2,3); thorough P=2 n<=8, P=3 n<=6"""
+    import multiprocessing as mp, os
+    import core
+    jobs = []
+    for P in (2, 3):
+        nmax = 5 if tier == "quick" else (8 if P == 2 else 6)
+        for n in range(1, nmax + 1):
+            for w in (1, 2, 3):
+                for relax in (1, 2, 3):
+                    jobs.append((n, w, relax, P, "asan"))
+    jobs.sort(key=lambda j: -(j[0] * 10 + j[3] * 25))
+    with mp.get_context("fork").Pool(14) as pool:
+        res = pool.map(_model_job, jobs, chunksize=1)
+    out = {"violations": [], "evaluations": 0, "distinct_nontrivial": 0, "states": 0, "transitions": 0, "model_configurations": len(jobs), "model_forests": 0,
+           "model_exhaustive_bound": "every postordered forest with <=%s columns (P=2) / <=%s (P=3) x panel 1..3 x relax 1..3, all interleavings" % ((5, 5) if tier == "quick" else (8, 6)),
+           "model_exhaustive": True}
+    for r in res:
+        out["states"] += int(r.get("states", 0)); out["transitions"] += int(r.get("transitions", 0)); out["model_forests"] += int(r.get("forests", 0))
+        out["evaluations"] += int(r.get("forests", 0)); out["distinct_nontrivial"] += int(r.get("forests", 0)) if r.get("n", 0) >= 3 else 0
+        if r.get("violation"):
+            os.makedirs(os.path.join(core.VERIF, "replays", "found"), exist_ok=True)
+            path = os.path.join(core.VERIF, "replays", "found", "%s_model_n%d_w%d_r%d_P%d.txt" % (pid, r["n"], r["w"], r["relax"], r["P"]))
+            open(path, "w").write("schedmodel %d %d %d %d\n%s\n" % (r["n"], r["w"], r["relax"], r["P"], r["violation"]))
+            out["violations"].append((path, {"v": "fail", "sig": "model:" + r["violation"][:60], "detail": r["violation"], "f": {}}))
+    return out
